@@ -77,14 +77,19 @@ class RequestContextHolder:
     @classmethod
     def update_request_start(cls, new_request_start):
         meta = cls.request_context.get()
-        # this can happen if multiple requests are sent on the wire for one logical request (e.g. scrolls)
-        if "request_start" not in meta:
-            meta["request_start"] = new_request_start
+        # multiple requests may be sent on the wire for one logical request (e.g. scrolls) and sub-requests may run
+        # concurrently and finish in any order: always keep the earliest start.
+        if new_request_start is not None:
+            current = meta.get("request_start")
+            meta["request_start"] = new_request_start if current is None else min(current, new_request_start)
 
     @classmethod
     def update_request_end(cls, new_request_end):
         meta = cls.request_context.get()
-        meta["request_end"] = new_request_end
+        # always keep the most recent end (see above).
+        if new_request_end is not None:
+            current = meta.get("request_end")
+            meta["request_end"] = new_request_end if current is None else max(current, new_request_end)
 
     @classmethod
     def on_request_start(cls):
